@@ -117,6 +117,20 @@ CHECKS = {
         design_ref="DESIGN.md section 4, C18",
         note="Trusted base: the format/precision table written down in checks/c18.py independently of the library's "
              "tables; h5py/libhdf5 and the OS file system taken as correct; histories are sampled."),
+    "C12": dict(
+        engine="histsim+simomp+pysched",
+        technique="deterministic simulation: seeded frame histories through labelimage (peaksearch / output2dpeaks / "
+                  "mergelast / finalise) on the instrumented module with allocator faults and team schedules; the "
+                  "threaded peaksearch pipeline under a deterministic Python thread scheduler; oracle = independent "
+                  "3D connected-component labelling with per-component pixel/intensity/centroid/bbox reference",
+        text="labelimage carries label images and property tables from frame to frame; the check drives generated 3D "
+             "scenes (joins, forks, blobs linked only through a neighbouring frame, empty frames, border blobs, zero "
+             "and negative omega steps) frame by frame and compares the written peaks one-to-one with the "
+             "components of the scene. The simulated heap is exact also under unchanged Python code: a kernel "
+             "that leaves its allocation dies deterministically and is reported with its run descriptor.",
+        design_ref="DESIGN.md section 4, C12",
+        note=TRUST_A + " Scenes use distinct integer intensities so that sums are exact and the maximum pixel "
+             "identifies its component."),
 }
 
 NOT_APPLICABLE = {
